@@ -18,6 +18,7 @@ RULEDOC = {
  'SA-ACCT.dropped': 'the delta returned by an accounting producer is never discarded on its way to _finish_add/_finish_remove',
  'SA-ACCT.inverse': 'grow and shrink operations of one class adjust the same attributes by inverse amounts of the same unit (never overwrite)',
  'SA-ATTR': 'attributes and keyword arguments used by the tools and public methods exist on every class the receiver can have (with isinstance narrowing)',
+ 'SA-COORD.refresh': 'the loop that renumbers the children of a directory assigns all cached coordinates on every iteration, to the end, without early exit',
  'SA-COORD': 'a position is computed from the cached coordinates (extents_to_here, offset_to_here, index_in_parent, parent, dr_len) of exactly one record',
  'SA-DATE': 'broken-down time fields and the GMT offset come from the same localtime() of the same instant',
  'SA-DEDUP': 'duplicate-content linking in genisoimage is dominated by a byte-wise comparison',
